@@ -21,6 +21,9 @@ CLAUSE = CLAUSE + (" A queue buffer is published to the clients only under `res 
                    "without a frame delivers nothing); the socket switched to non-blocking mode in "
                    "vbi_proxy_msg_accept_connection is the one accept() returned (a stalled client cannot block the daemon's "
                    "main loop in send()).")
+CLAUSE = CLAUSE + (" In vbi_proxy_queue_allocate a count taken by walking the free list is reset right after the list is released "
+                   "and incremented right after a buffer is added; the byte offsets of the message I/O state (writeOff, readOff) are "
+                   "added to byte pointers only.")
 NOT_DECIDED = ("exactly-once / in-order delivery, timing, device open/close sequencing, that a stalled client loses only its own "
                "frames (schedule-dependent behaviour); the main loop's unlocked *reads* of its clients' cursors and queued frames "
                "(vbi_proxyd_send_sliced, _handle_client_sockets, _get_fd_set) are a formal data race with the acquisition thread's "
@@ -222,6 +225,8 @@ def run(ctx, run):
     _client_transient_states(ctx, run)
     _publish_only_frames(ctx, run, P.need("vbi_proxyd_forward_data", UNIT))
     _accepted_socket_nonblocking(ctx, run)
+    _count_follows_list(ctx, run)
+    _byte_offsets_on_byte_pointers(ctx, run)
     from .. import sweep
     sweep.run(ctx, run, ["src/proxy-client.c"], {}, 10)
 
@@ -501,3 +506,142 @@ def _accepted_socket_nonblocking(ctx, run):
                               "and one client that stops reading blocks the daemon's main loop in send() - no other client gets "
                               "frames" % (a0.get("name"), acc), ex.loc(f, i))
     run.floor("O_NONBLOCK fcntl calls in accept_connection", n, 1)
+
+
+def _count_follows_list(ctx, run):
+    """RF-CORR: vbi_proxy_queue_allocate() decides how many frame buffers to allocate from local
+    counts of the free and the used list.  A count taken by walking a list is stale once that
+    list is changed wholesale: after vbi_proxy_queue_free_all (&...->p_free) the first access to
+    the count is its reset, after vbi_proxy_queue_add_free() it is an increment.  With a stale
+    count the top-up loop allocates nothing and the device is left without buffers: every
+    remaining client stops receiving frames."""
+    from . import C11
+    from .. import loops
+    P = ctx.prog
+    f = P.need("vbi_proxy_queue_allocate", UNIT)
+    run.touch(f)
+    L = loops.natural_loops(f)
+    counters = {}           # local -> list member it counts
+    for head, body in L.items():
+        members = set()
+        for b in body:
+            for i in f.blocks[b].elems:
+                e = f.exprs[i]
+                if e["k"] == "mem" and e.get("in") == "PROXY_DEV" and e["member"] in ("p_free", "p_sliced"):
+                    members.add(e["member"])
+        # the initialisation of the cursor sits before the loop head: look at the head's predecessors too
+        for b, blk in f.blocks.items():
+            if head in [s for s, _ in f.edges(b)] and b not in body:
+                for i in blk.elems:
+                    e = f.exprs[i]
+                    if e["k"] == "mem" and e.get("in") == "PROXY_DEV" and e["member"] in ("p_free", "p_sliced"):
+                        members.add(e["member"])
+        if len(members) != 1:
+            continue
+        for b in body:
+            for i in flow.events(f, b):
+                for lhs, var, op, rhs in flow.stores(f, i):
+                    if lhs is not None and op in ("+=", "++"):
+                        l = f.exprs[ex.skip(f, lhs)]
+                        if l["k"] == "ref" and l.get("dk") == "local":
+                            counters[l["name"]] = sorted(members)[0]
+    if "p_free" not in counters.values():
+        raise AnalysisBroken("vbi_proxy_queue_allocate: the free-list count was not recognised (%s)" % counters)
+    n = 0
+    for cname, member in sorted(counters.items()):
+        for bid, i in flow.all_events(f):
+            e = f.exprs[i]
+            if e["k"] != "call":
+                continue
+            cal = e.get("callee")
+            if cal == "vbi_proxy_queue_free_all" and e.get("c") and ex.pretty(f, e["c"][0]).endswith(member):
+                want = "reset"
+            elif cal == "vbi_proxy_queue_add_free" and member == "p_free":
+                want = "incr"
+            else:
+                continue
+            n += 1
+            key = "RF-CORR:vbi_proxy_queue_allocate:%s-after-%s" % (cname, cal)
+            use = C11._use_after(f, (bid, i), cname)
+            nxt = _next_store(f, (bid, i), cname)
+            ok = use is None and nxt is not None and all(
+                (want == "reset" and op == "=" and ex.const(f, rhs) == 0) or (want == "incr" and op in ("+=", "++"))
+                for op, rhs in nxt)
+            if ok:
+                run.holds("RF-CORR", key, "after `%s` the count `%s` is %s before it is read" % (ex.pretty(f, i)[:50], cname,
+                          "set to 0" if want == "reset" else "incremented"), ex.loc(f, i))
+            else:
+                run.violation("RF-CORR", key, "after `%s` the count `%s` of the %s list is read%s without having been %s: the "
+                              "top-up loop works with the number of buffers that were just released, allocates too few (none), and "
+                              "the clients that stay connected get no more frames" % (
+                                  ex.pretty(f, i)[:50], cname, member, (" (`%s`)" % ex.pretty(f, use)[:30]) if use is not None else "",
+                                  "reset to 0" if want == "reset" else "incremented"), ex.loc(f, i))
+    run.floor("list changes followed by a count update in vbi_proxy_queue_allocate", n, 2)
+
+
+def _next_store(f, c, name):
+    """(op, rhs) of the first store(s) to local `name` reachable from just after event c."""
+    pos = flow.elem_pos(f)
+    cb, ci = c
+    out, seen = [], set()
+
+    def scan(bid, start):
+        for j in f.blocks[bid].elems[start:]:
+            if flow.is_event(f, j):
+                for lhs, var, op, rhs in flow.stores(f, j):
+                    if lhs is not None:
+                        l = f.exprs[ex.skip(f, lhs)]
+                        if l["k"] == "ref" and l.get("name") == name:
+                            out.append((op, rhs))
+                            return True
+        return False
+    if scan(cb, pos[ci][1] + 1):
+        return out
+    st = [s for s, _ in f.edges(cb)]
+    while st:
+        b = st.pop()
+        if b in seen:
+            continue
+        seen.add(b)
+        if scan(b, 0):
+            continue
+        st.extend(s for s, _ in f.edges(b))
+    return out or None
+
+
+def _byte_offsets_on_byte_pointers(ctx, run):
+    """RF-UNIT: the message I/O state counts in bytes (writeOff, readOff, writeLen, readLen).
+    Adding such an offset to a pointer whose pointee is larger than one byte scales it by the
+    pointee size: the continuation of a partially written message is then taken from the wrong
+    address (EFAULT / foreign bytes on the wire) - only when a send() was partial, i.e. for a
+    slow client with large raw frames."""
+    P = ctx.prog
+    n = 0
+    for f in P.funcs:
+        if f.file not in ("src/proxy-msg.c", "daemon/proxyd.c", "src/proxy-client.c"):
+            continue
+        for i, e in enumerate(f.exprs):
+            if not (e["k"] == "bin" and e["op"] in ("+", "-")) and e["k"] != "idx":
+                continue
+            a, b = e["c"][0], e["c"][1]
+            for ptr, off in ((a, b), (b, a)):
+                pe = f.exprs[ptr]
+                t = pe.get("t") or ""
+                if not t.rstrip().endswith("*"):
+                    continue
+                o = f.exprs[ex.skip(f, off)]
+                while o["k"] == "cast":
+                    o = f.exprs[ex.skip(f, o["c"][0])]
+                if not (o["k"] == "mem" and o["member"] in ("writeOff", "readOff") and o.get("in") == "VBIPROXY_MSG_STATE"):
+                    continue
+                n += 1
+                run.touch(f)
+                base = t.replace("const", "").replace("*", "").strip()
+                key = "RF-UNIT:%s:byte-offset@%s" % (f.name, o["member"])
+                if base in ("char", "unsigned char", "uint8_t", "signed char", "void"):
+                    run.holds("RF-UNIT", key, "`%s`: byte offset added to a byte pointer" % ex.pretty(f, i)[:50], ex.loc(f, i))
+                else:
+                    run.violation("RF-UNIT", key, "`%s` adds the byte offset %s to a `%s`: the offset is scaled by sizeof (%s), so a "
+                                  "message that could not be sent in one piece continues from the wrong address"
+                                  % (ex.pretty(f, i)[:60], o["member"], t, base), ex.loc(f, i))
+    run.floor("byte offsets of the message state used in pointer arithmetic", n, 2)
